@@ -2,7 +2,7 @@ package main
 
 import (
 	"fmt"
-	"verif/checker/internal/codec"
+	"verif/checker/internal/refl"
 	"verif/checker/internal/core"
 )
 
@@ -10,16 +10,15 @@ func main() {
 	c := core.NewCtx("/repo", "quick", "X", 0)
 	defer c.Cleanup()
 	if err := c.Load(); err != nil { panic(err) }
-	codec.RunDec(c)
-	codec.RunUnkAccessors(c)
-	codec.RunOpts(c)
+	refl.RunPure(c)
 	ok, bad := 0, 0
 	cnt := map[string]int{}
+	seen := map[string]bool{}
 	for _, o := range c.Obligations() {
 		if o.Status == core.OK { ok++; continue }
 		bad++
 		cnt[o.Rule]++
-		if cnt[o.Rule] < 4 { fmt.Println(o.Status, o.Rule, o.Construct, "::", o.Detail, o.Pos) }
+		if !seen[o.Detail] && len(seen) < 25 { seen[o.Detail] = true; fmt.Println(o.Status, o.Rule, o.Construct, "::", o.Detail, o.Pos) }
 	}
 	fmt.Println("ok", ok, "bad", bad, cnt, c.Stats)
 }
